@@ -8,7 +8,7 @@ theorems `bfix_*` in lean/VsgProofs/Properties/C01.lean / C02.lean / C03.lean).
 (1) synthetic correspondence: hand-built token lists × every action in and out of range through the REAL
     `_fix_violation` of a real rule instance of each of the 17 owners and through the Lean model; token
     lists and raised exception types must agree (harness/blines_synth.py);
-(2) the Lean negation witnesses (`move_codeSeq_false`, `moveSeq_codeSeq_false`, `removeCr_celSafe_false`, `removeCrAfter_celSafe_false`,
+(2) the Lean negation witnesses (`move_codeSeq_false`, `moveSeq_codeSeq_false`, `removeCr_celSafe_false`, `removeCrAfter_celSafe_false`, `removeCrAfter_preprocSafe_false`,
     `move_celSafe_false`, `moveLeft_commentSeq_false`) replayed on the REAL classes;
 (3) search on the REAL fix path (whole files, default rule set) for inputs on which a rule of the family
     reorders code, lets a comment swallow code or glues code onto a preprocessor line.
@@ -46,6 +46,10 @@ WITNESSES = [
     ("removeCr", "awknb", dict(params={"bInsertSpace": True}), "awknb", "C02: the repaired remove_carriage_return_after_token keeps the line break behind the comment"),
     ("removeCr", "na", dict(params={"bInsertSpace": False}), "a", "C02.removeCrAfter_celSafe_false (1): region starting with a line break"),
     ("removeCr", "kna", dict(params={"bInsertSpace": True}), "kwna", "C02.removeCrAfter_celSafe_false (2): whitespace inserted behind a leading comment"),
+    ("removeCr", "anpnw", dict(params={"bInsertSpace": False}), "anpnw", "C02.removeCrAfter_preproc_region_kept (1): the repaired remove_carriage_return_after_token keeps the line breaks around a preprocessor line"),
+    ("removeCr", "anwpn", dict(params={"bInsertSpace": False}), "anwpn", "C02.removeCrAfter_preproc_region_kept (2): … also behind an indentation"),
+    ("removeCr", "an", dict(params={"bInsertSpace": False}), "a", "C02.removeCrAfter_preprocSafe_false (1): the last line break of the region goes whatever follows the region"),
+    ("removeCr", "wna", dict(params={"bInsertSpace": False}), "wa", "C02.removeCrAfter_preprocSafe_false (2): region starting with whitespace"),
     ("moveLeft", "awknb", dict(params={"bInsertWhitespace": True, "bRemoveTrailingWhitespace": True}), "awbwk", "C02.move_celSafe_false (1): comment becomes the last token of the region"),
     ("moveNext", "knb", dict(tv=2), "kwbn", "C02.move_celSafe_false (2): token lands behind a comment"),
     ("moveLeft", "apnb", dict(params={"bInsertWhitespace": True, "bRemoveTrailingWhitespace": True}), "awb", "C02.moveLeft_commentSeq_false: trailing preprocessor token deleted"),
